@@ -79,4 +79,53 @@ theorem streams_get_own_response (h : Cache.Handlers) (hh : Cache.Honours h) (cf
           · rw [hrep] at hx; exact hx
     · exact ih _ (Cache.step_coherent h cfg s now t.req hc) p hp
 
+/-- **request bodies, HTTP/2**: however the body is cut into DATA frames, the handler that asks for at most `max`
+bytes gets exactly the first `max` bytes of the body — the same bytes `Http1.body_exact` gives the HTTP/1.1 handler
+for every segmentation of the TCP stream. -/
+theorem h2Read_spec (max : Nat) : ∀ (frames : List Bytes) (acc : Bytes), acc.length ≤ max →
+    h2Read max frames acc = (acc ++ frames.flatten).take max := by
+  intro frames
+  induction frames with
+  | nil => intro acc h; simp [h2Read, List.take_of_length_le h]
+  | cons f fs ih =>
+    intro acc hacc
+    unfold h2Read
+    simp only
+    by_cases h0 : max - acc.length = 0
+    · rw [if_pos h0]
+      have : acc.length = max := by omega
+      rw [List.take_append_of_le_length (by omega), ← this, List.take_length]
+    · rw [if_neg h0]
+      have hlen : (acc ++ f.take (min f.length (max - acc.length))).length ≤ max := by
+        simp only [List.length_append, List.length_take]; omega
+      by_cases h1 : max - (acc ++ f.take (min f.length (max - acc.length))).length = 0
+      · rw [if_pos h1]
+        -- the budget is used up inside this frame
+        have hfull : (acc ++ f.take (min f.length (max - acc.length))).length = max := by omega
+        have hmin : min f.length (max - acc.length) = max - acc.length := by
+          simp only [List.length_append, List.length_take] at hfull; omega
+        rw [hmin] at hfull ⊢
+        simp only [List.flatten_cons]
+        rw [← List.append_assoc, List.take_append_of_le_length (by
+          simp only [List.length_append, List.length_take] at hfull ⊢; omega)]
+        rw [List.take_append, List.take_of_length_le (show acc.length ≤ max by omega)]
+      · rw [if_neg h1]
+        -- the whole frame fits
+        have hmin : min f.length (max - acc.length) = f.length := by
+          simp only [List.length_append, List.length_take] at h1; omega
+        rw [hmin, List.take_length] at hlen h1 ⊢
+        rw [ih _ hlen]
+        simp [List.append_assoc]
+
+theorem h2_body_is_prefix (max : Nat) (frames : List Bytes) : h2Read max frames [] = frames.flatten.take max := by
+  simpa using h2Read_spec max frames [] (Nat.zero_le _)
+
+/-- the answer does not depend on the framing: two ways of cutting the same body give the handler the same bytes -/
+theorem h2_framing_irrelevant (max : Nat) (f1 f2 : List Bytes) (h : f1.flatten = f2.flatten) :
+    h2Read max f1 [] = h2Read max f2 [] := by
+  rw [h2_body_is_prefix, h2_body_is_prefix, h]
+
+/-! test: three frames of 3 bytes, limit 5 (the seeded slip `left := max - frame.len` returns 8 bytes here) -/
+example : h2Read 5 [[1, 2, 3], [4, 5, 6], [7, 8, 9]] [] = [1, 2, 3, 4, 5] := by decide
+
 end Mux
